@@ -1612,7 +1612,8 @@ class VM:
             search = args[0] if args else UNDEFINED
             length = len(arr._elements)
             start = relative_index(args[1], length, 0) if len(args) > 1 else 0
-            for i in range(start, length):
+            # converting fromIndex can run script code that shortens the array
+            for i in range(start, min(length, len(arr._elements))):
                 if vm._strict_equals(arr._elements[i], search):
                     return i
             return -1
@@ -1623,6 +1624,8 @@ class VM:
             start = to_integer(args[1]) if len(args) > 1 else length - 1
             if start < 0:
                 start = length + start
+            # converting fromIndex can run script code that shortens the array
+            length = min(length, len(arr._elements))
             for i in range(int(max(-1, min(start, length - 1))), -1, -1):
                 if vm._strict_equals(arr._elements[i], search):
                     return i
@@ -1688,7 +1691,8 @@ class VM:
             length = len(arr._elements)
             start = relative_index(args[1], length, 0) if len(args) > 1 else 0
             search_is_nan = isinstance(search, float) and math.isnan(search)
-            for i in range(start, length):
+            # converting fromIndex can run script code that shortens the array
+            for i in range(start, min(length, len(arr._elements))):
                 elem = arr._elements[i]
                 if vm._strict_equals(elem, search):
                     return True
